@@ -19,7 +19,17 @@
 //!    -0 == +0), whichever representation (dense / sparse) the engine chose.
 //!
 //! parts: `program` (above), `alias` (a named collection called "_default" next to a cached default
-//! index).
+//! index; skipped when the engine refuses that name).
+//!
+//! Failure classes carry their own signature (`stale-index:<slot>:after:<api>`,
+//! `cached:<api>:<what>`, `exact:<api>:<what>`, `readback:<api>:<what>`); three by-products of the
+//! oracle are classified against the real code before they are reported: an exact-but-short answer of
+//! the post-filter strategy (`…:post-filter-returns-fewer-than-k-matching`), an answer that is the
+//! exact *cosine* ranking in a collection configured with another metric
+//! (`…:scored-with-cosine-instead-of-collection-metric`) and a key whose storage prefix was removed
+//! twice (`…:key-prefix-stripped-twice`).
+//!
+//! development aids: `--case-seed N [--part alias] --verbose 1`, `--sig-filter <substring>`.
 
 use common::*;
 use serde_json::{json, Value};
@@ -498,7 +508,7 @@ fn judge_common(
                     }
                 }
             }
-            if let Some(olds) = space.old.get(&r.key) {
+            if let Some(olds) = space.old.get(&r.key).filter(|_| what == "wrong-score") {
                 for o in olds {
                     if o.len() == q.len() {
                         let (so, to) = ref_score(metric, q, o);
@@ -1476,6 +1486,105 @@ fn run_alias(case_seed: u64, r: &mut Report, verbose: bool) {
 
 // ------------------------------------------------------------------------------------------------
 
+// ------------------------------------------------------------------------------------------------
+// `--probe 1`: the minimal witnesses of the defects this monitor found, run against the real code
+// ------------------------------------------------------------------------------------------------
+
+fn probes() {
+    let show = |r: vector_engine::Result<Vec<SearchResult>>| match r {
+        Ok(v) => fmt_res(&v),
+        Err(e) => format!("Err({})", e),
+    };
+    let base = || {
+        let e = VectorEngine::new();
+        e.store_embedding("a", vec![1.0, 0.0, 0.0]).unwrap();
+        e.store_embedding("b", vec![0.0, 1.0, 0.0]).unwrap();
+        e.store_embedding("c", vec![0.0, 0.0, 1.0]).unwrap();
+        e.build_and_cache_index(HNSWConfig::default()).unwrap();
+        e
+    };
+    let q = [1.0f32, 0.1, 0.0];
+    {
+        let e = base();
+        e.batch_delete_embeddings(vec!["a".into()]).unwrap();
+        println!("1 build; batch_delete_embeddings([a]); search_similar -> {}   (a is deleted)", show(e.search_similar(&q, 3)));
+    }
+    {
+        let e = base();
+        e.clear().unwrap();
+        println!("2 build; clear(); search_similar -> {}   (store is empty)", show(e.search_similar(&q, 3)));
+    }
+    {
+        let e = base();
+        e.store_embedding_with_metadata("a", vec![-1.0, 0.0, 0.0], HashMap::new()).unwrap();
+        println!("3 build; store_embedding_with_metadata(a, -a); search_similar -> {}   (a now scores -0.995)", show(e.search_similar(&q, 3)));
+    }
+    {
+        let e = VectorEngine::new();
+        e.store_in_collection("c", "x", vec![1.0, 0.0]).unwrap();
+        e.create_collection("c2", VectorCollectionConfig::default()).unwrap();
+        e.store_in_collection("c2", "x", vec![1.0, 0.0]).unwrap();
+        let idx = HNSWIndex::with_config(HNSWConfig::default());
+        idx.insert(vec![1.0, 0.0]);
+        e.cache_hnsw_index("c2", Arc::new(idx), vec!["coll:c2:emb:x".into()]);
+        e.delete_collection("c2").unwrap();
+        println!("4 cache_hnsw_index(c2); delete_collection(c2); search_in_collection(c2) -> {}   (collection is gone)", show(e.search_in_collection("c2", &[1.0, 0.0], 3)));
+    }
+    {
+        let e = VectorEngine::new();
+        for i in 0..3 {
+            e.store_embedding(&format!("v{}", i), (0..8).map(|j| (i + j) as f32).collect()).unwrap();
+        }
+        println!("5a exhaustive, query of dimension 16 over 8-dim vectors -> {}", show(e.search_similar(&[1.0; 16], 3)));
+        e.build_and_cache_index(HNSWConfig::default()).unwrap();
+        println!("5b same after build_and_cache_index -> {}   (8-dim vectors scored against a 16-dim query)", show(e.search_similar(&[1.0; 16], 3)));
+        let r = catch_unwind(AssertUnwindSafe(|| e.search_similar(&[1.0; 4], 3)));
+        println!("5c query of dimension 4 -> {}", match r {
+            Ok(x) => show(x),
+            Err(p) => format!("PANIC {}", panic_msg(&p)),
+        });
+    }
+    {
+        let e = VectorEngine::new();
+        e.store_embedding("emb:x", vec![1.0, 0.0]).unwrap();
+        e.store_embedding("x", vec![0.0, 1.0]).unwrap();
+        println!("6a exhaustive -> {}", show(e.search_similar(&[1.0, 0.5], 3)));
+        e.build_and_cache_index(HNSWConfig::default()).unwrap();
+        println!("6b cached     -> {}   (key \"emb:x\" reported as \"x\")", show(e.search_similar(&[1.0, 0.5], 3)));
+    }
+    {
+        let e = VectorEngine::new();
+        e.create_collection("eu", VectorCollectionConfig::default().with_metric(DistanceMetric::Euclidean)).unwrap();
+        let mut m = HashMap::new();
+        m.insert("cat".to_string(), TensorValue::Scalar(ScalarValue::Int(1)));
+        e.store_in_collection_with_metadata("eu", "near", vec![1.0, 1.0], m.clone()).unwrap();
+        e.store_in_collection_with_metadata("eu", "far", vec![10.0, 10.0], m).unwrap();
+        let f = FilterCondition::Eq("cat".into(), FilterValue::Int(1));
+        println!("7a euclidean collection, search_in_collection          -> {}", show(e.search_in_collection("eu", &[1.0, 1.1], 2)));
+        println!("7b search_filtered_in_collection, pre-filter strategy  -> {}   (cosine scores)", show(e.search_filtered_in_collection("eu", &[1.0, 1.1], 2, &f, Some(FilteredSearchConfig::pre_filter()))));
+        println!("7c search_filtered_in_collection, post-filter strategy -> {}", show(e.search_filtered_in_collection("eu", &[1.0, 1.1], 2, &f, Some(FilteredSearchConfig::post_filter()))));
+    }
+    {
+        let e = VectorEngine::new();
+        for i in 0..10 {
+            let mut m = HashMap::new();
+            m.insert("cat".to_string(), TensorValue::Scalar(ScalarValue::Int(if i >= 8 { 1 } else { 0 })));
+            e.store_embedding_with_metadata(&format!("v{}", i), vec![1.0, i as f32], m).unwrap();
+        }
+        let f = FilterCondition::Eq("cat".into(), FilterValue::Int(1));
+        println!("8a 10 vectors, 2 match cat=1 (the two worst scoring); pre-filter k=2  -> {}", show(e.search_similar_filtered(&[1.0, 0.0], 2, &f, Some(FilteredSearchConfig::pre_filter()))));
+        println!("8b default (auto) strategy k=2 -> {}", show(e.search_similar_filtered(&[1.0, 0.0], 2, &f, None)));
+    }
+    {
+        let e = VectorEngine::new();
+        e.store_embedding("d0", vec![1.0, 0.0]).unwrap();
+        e.store_in_collection("_default", "n0", vec![0.0, 1.0]).unwrap();
+        println!("9a collection \"_default\" before build -> {}", show(e.search_in_collection("_default", &[1.0, 1.0], 3)));
+        e.build_and_cache_index(HNSWConfig::default()).unwrap();
+        println!("9b after build_and_cache_index()         -> {}   (key of the default collection)", show(e.search_in_collection("_default", &[1.0, 1.0], 3)));
+    }
+}
+
 fn guarded(part: &'static str, case_seed: u64, r: &mut Report, f: impl FnOnce(&mut Report)) {
     let res = catch_unwind(AssertUnwindSafe(|| f(r)));
     if let Err(e) = res {
@@ -1495,6 +1604,10 @@ fn main() {
         let _ = SIG_FILTER.set(f.clone());
     }
     let scratch_base = args.scratch.clone();
+    if args.extra.contains_key("probe") {
+        probes();
+        return;
+    }
 
     let mut single = false;
     if let Some(p) = &args.replay {
@@ -1502,9 +1615,26 @@ fn main() {
         let v: Value = serde_json::from_str(&std::fs::read_to_string(p).expect("replay file")).expect("json");
         let rp = if v.get("replay").is_some() { v["replay"].clone() } else { v.clone() };
         let seed = rp["case_seed"].as_u64().expect("case_seed");
-        match rp["part"].as_str().unwrap_or("program") {
-            "alias" => guarded("alias", seed, &mut total, |r| run_alias(seed, r, true)),
-            _ => guarded("program", seed, &mut total, |r| run_program(seed, r, true, &scratch_base)),
+        // The engine enumerates keys in hash-set order, which differs from run to run: which of several
+        // exactly tied candidates a post-filter search sees is not a function of the seed. The case is
+        // therefore re-executed (same seed, same operations) until it shows a violation, at most 25 times.
+        let want = v["signature"].as_str().map(|s| s.to_string());
+        for attempt in 0..25 {
+            let mut one = Report::new();
+            match rp["part"].as_str().unwrap_or("program") {
+                "alias" => guarded("alias", seed, &mut one, |r| run_alias(seed, r, attempt == 0)),
+                _ => guarded("program", seed, &mut one, |r| run_program(seed, r, attempt == 0, &scratch_base)),
+            }
+            let hit = match &want {
+                Some(w) => one.violations.iter().any(|x| &x.signature == w) || one.counters.contains_key(&format!("violation[{}]", w)),
+                None => one.violations_total > 0,
+            };
+            let last = attempt == 24;
+            if hit || last {
+                total.count("replay_executions", attempt as u64 + 1);
+                total.merge(one);
+                break;
+            }
         }
     } else if let Some(s) = args.extra.get("case-seed") {
         single = true;
@@ -1534,6 +1664,8 @@ fn main() {
             "the cached-index oracle is applied only while the model saw no vector change since the build; an exact exhaustive answer also satisfies it, so the engine is never required to use the index".into(),
             "search_in_collection / search_filtered_in_collection are judged under the collection's configured metric; collection indexes are built by the program with that metric from vectors read through the engine".into(),
             "quantized HNSW storage, IVF and search_with_hnsw_and_metric (rescaled similarity) are not judged".into(),
+            "an index handed to cache_hnsw_index for a named collection maps node ids to storage keys (the convention of vector_engine's own test) and is withdrawn by the program when the collection's configuration is replaced (create_collection / load_index)".into(),
+            "hostile key names (keys starting with \"emb:\", empty key, non-ASCII) are used in 1 of 8 programs".into(),
         ],
         floors: if single {
             vec![]
